@@ -181,6 +181,25 @@ class BuilderWorld(World):
     def op_build_deleg(self, op):
         k = self.keys
         dels = {r: {"pubkeys": [k.pub[i] for i in idx if i < len(k)], "threshold": t} for r, (idx, t) in op["dels"].items()}
+        must_reject = False
+        if op.get("bad_role") and op["bad_role"][0] in dels:
+            r, how = op["bad_role"]
+            d = dels[r]
+            hx = "ab" * 32
+            if how == "threshold0":
+                d["threshold"] = 0
+            elif how == "dupkeys":
+                d["pubkeys"] = [hx, hx]
+            elif how == "nokeys":
+                del d["pubkeys"]
+            elif how == "extra":
+                d["note"] = 1
+            elif how == "upper":
+                d["pubkeys"] = [hx.upper()]
+            else:
+                d["threshold"] = "1"
+            must_reject = True
+            self.run.fault("operator_error_malformed_delegation")
         args = [op["type"]]
         kw = {"delegations": dels, "version": op["version"]}
         given = {"type": op["type"], "version": op["version"], "delegations": dels}
@@ -202,10 +221,32 @@ class BuilderWorld(World):
             given = {}
         self.default_times = "timestamp" not in kw and "expiration" not in kw
         o = self._call_builder("build_delegating_metadata", args, kw, op.get("jumps"))
-        self._judge("build_delegating_metadata", o, given, plain, op)
+        if must_reject and o.ok:
+            self.run.violate(("C16",), "builder-accepted-malformed-delegation", "build_delegating_metadata returned metadata for a malformed delegation (%s)"
+                             % op["bad_role"][1], "builder-accepted-malformed-delegation")
+            return
+        self._judge("build_delegating_metadata", o, given if not must_reject else {}, plain and not must_reject, op)
+
+    def _time_definitely_invalid(self, v):
+        import re
+        if not isinstance(v, str):
+            return True
+        if re.fullmatch(r"[0-9]{4}-[0-9]{2}-[0-9]{2}T[0-9]{2}:[0-9]{2}:[0-9]{2}Z", v):
+            return False
+        try:
+            _dt.datetime.strptime(v, ISO)
+            return False            # outside the documented form but admitted by the standard parser: unspecified, not judged
+        except ValueError:
+            return True
 
     def _judge(self, fn, o, given, plain, op):
         run = self.run
+        c = op.get("corrupt")
+        if o.ok and c and ((fn == "build_root_metadata" and c[0] in (5, 6)) or (fn == "build_delegating_metadata" and c[0] in ("timestamp", "expiration"))) \
+                and c[1] is not None and self._time_definitely_invalid(c[1]):
+            run.violate(("C16",), "builder-accepted-invalid-time", "%s returned metadata for a timestamp / expiration argument %r that neither the "
+                        "documented format nor the standard parser admits" % (fn, c[1]), "builder-accepted-invalid-time")
+            return
         if not o.ok:
             run.rejects += 1
             if not isinstance(o.exc, (TypeError, ValueError)):
@@ -279,13 +320,20 @@ class BuilderWorld(World):
                 op["corrupt"] = [pos, rng.choice([gen.confuse(rng, old), _bad_for(rng, pos)])]
                 op["valid"] = False
             return op
-        roles = rng.sample(["key_mgr", "pkg_mgr", "root", "x", "é", ""], rng.randint(0, 3))
+        roles = rng.sample(["key_mgr", "pkg_mgr", "root", "x", "é", "", "{}", "{0}", "{channel}-pkg_mgr", "pkg_mgr-{1}", "{0.signer}", "%s", "{"], rng.randint(0, 3))
         dels = {}
         for role in roles:
             idx = sorted(rng.sample(range(nk), rng.randint(0, 3)))
             dels[role] = [idx, rng.randint(1, 3)]
+        bad_role = None
+        if roles and valid and rng.random() < 0.2:
+            bad_role = rng.choice(roles)       # one role's delegation is malformed: the builder must answer with an argument error
         op = {"op": "build_deleg", "type": rng.choice(["key_mgr", "root", "pkg_mgr", "anything", ""]), "dels": dels,
               "version": rng.choice([1, 3, 10**12]), "jumps": jumps, "dt": dt, "valid": True, "nodels": rng.random() < 0.15}
+        if bad_role is not None:
+            op["bad_role"] = [bad_role, rng.choice(["threshold0", "dupkeys", "nokeys", "extra", "upper", "strthreshold"])]
+            op["valid"] = False
+            op["nodels"] = False
         if rng.random() < 0.35:
             op["ts"] = rng.choice(["2021-03-04T05:06:07Z", "2024-02-29T00:00:00Z"])
         if rng.random() < 0.3:
@@ -307,7 +355,8 @@ def _bad_for(rng, pos):
     if pos in (1, 3):
         return rng.choice([[hx, hx], [hx.upper()], [hx[:-1]], [hx + "0"], hx, [None], [[hx]], {"k": hx}, [hx, " " + hx[1:]]])
     if pos in (5, 6, "timestamp", "expiration"):
-        return rng.choice(["2021-02-30T00:00:00Z", "2021-03-04T05:06:07", "2021-03-04 05:06:07Z", "2021-03-04T05:06:07+00:00", "", 1614834367,
+        return rng.choice(["2021-W01-1T00:00:00Z", "2021-01-04T00:00+01Z", "2021-01-04T00+01:00Z", "2021-01-04T000000.0Z", "20210104T000000000Z",
+                           "2021-02-30T00:00:00Z", "2021-03-04T05:06:07", "2021-03-04 05:06:07Z", "2021-03-04T05:06:07+00:00", "", 1614834367,
                            "2021-03-04T24:00:00Z", "21-03-04T05:06:07Z", "2021-03-04T05:06:07Z ", None, "０００１-01-01T00:00:00Z"])
     if pos == "delegations":
         return rng.choice([{"r": {"pubkeys": [hx], "threshold": 0}}, {"r": {"pubkeys": [hx, hx], "threshold": 1}}, {"r": {"pubkeys": hx, "threshold": 1}},
